@@ -40,10 +40,10 @@ MIN_EVALS = {"quick": 60, "thorough": 1500}
 FLOORS = {
     "quick": {"conservation": 60, "u_checked": 100, "cmd_revert": 10, "cmd_remove": 6, "cmd_merge": 10, "cmd_pull": 2, "cmd_update": 2,
               "cmd_switch": 2, "cmd_uncommit": 2, "uncommit_disk_identical": 2, "merge_observed": 10, "conserved_backup": 5,
-              "conserved_clean_merge": 1, "conserved_conflict_helper": 2},
+              "conserved_clean_merge": 1, "conserved_conflict_helper": 2, "switch_store_second_checkout": 1},
     "thorough": {"conservation": 1500, "u_checked": 2500, "cmd_revert": 300, "cmd_remove": 200, "cmd_merge": 250, "cmd_pull": 50,
                  "cmd_update": 50, "cmd_switch": 50, "cmd_uncommit": 50, "uncommit_disk_identical": 50, "merge_observed": 250,
-                 "conserved_backup": 150, "conserved_clean_merge": 25, "conserved_conflict_helper": 25},
+                 "conserved_backup": 150, "conserved_clean_merge": 25, "conserved_conflict_helper": 25, "switch_store_second_checkout": 15},
 }
 ASSUMPTIONS = [
     "bzr (2a, dirstate) trees only: the oracle keys user content to file ids; git trees are not driven",
@@ -52,7 +52,9 @@ ASSUMPTIONS = [
     "set semantics on contents: one surviving copy of a byte string conserves it; empty contents are trivial",
     "clean-merge subsumption: result must equal a conflict-free merge3 (library, patience or difflib matcher, cherrypick or not) of (base | any LCA, user text, other) "
     "chained over the mergers the command actually ran; for --weave/--lca merges only: every line the user inserted is still present in order",
-    "switch --store is an explicit request to stash: contents missing afterwards are not judged (the round trip back is only recorded in the histogram)",
+    "switch --store is an explicit request to stash, but only when the command succeeds: a refused or crashed switch --store must keep every content in the tree; "
+    "after a successful one the round trip (switch --store back to the branch holding the stash) must bring every versioned content back "
+    "(unversioned files that were re-versioned by shelving an unversion are recorded, not judged)",
     "a documented refusal (BzrError) or an internal error of the command is not itself judged; the conservation oracle is applied to whatever state it left",
 ]
 
@@ -130,6 +132,9 @@ def _clean_merges(base, this, other):
     return out
 
 
+_DELETED = object()
+
+
 def _closure(u, fid, mergers):
     """Contents the file may hold after the recorded mergers ran cleanly on it, starting from u."""
     S = {u}
@@ -139,9 +144,15 @@ def _closure(u, fid, mergers):
             continue
         base, other, lcas = t
         if other is None:
+            # OTHER has no such file: if the user's text equals the merge base (or an LCA) the user side is "unchanged"
+            # for this merge and the clean three-way result is OTHER's deletion
+            if any(b is not None and b in S for b in [base] + list(lcas)):
+                S.add(_DELETED)
             continue
         bases = [base if base is not None else b""] + [x for x in lcas if x is not None]
         for s in list(S):
+            if s is _DELETED:
+                continue
             for b in bases:
                 S |= _clean_merges(b, s, other)
     return S
@@ -528,6 +539,7 @@ class Scn:
             for m in mergers:
                 ctx.hist("merger:" + m["type"])
         after = observe.snap_disk(tree_path)
+        self.last_outcome = outcome
         self.judge(family, optclass, U, before, after, mergers, tree_path, asked, merge_like, expect_disk_identical, outcome, argv, keyfn)
         return outcome
 
@@ -584,8 +596,16 @@ class Scn:
                 if v and v[0] == "file":
                     cands.append(v[1])
                 S = _closure(c, u["fid"], mergers)
-                if any(t in S for t in cands):
+                if _DELETED in S and not cands:
+                    where = "clean-merge-deletion-user-text-equals-base"
+                    ctx.count("conserved_clean_merge")
+                elif any(t in S for t in cands):
                     where = "clean-merge"
+                    ctx.count("conserved_clean_merge")
+                elif any(t in after_contents for t in S if t is not _DELETED):
+                    # the clean merge result sits in a file that the tree does not (yet) connect to this id, e.g. the
+                    # command died between moving files and updating the inventory (C13's subject, not a loss of content)
+                    where = "clean-merge-elsewhere"
                     ctx.count("conserved_clean_merge")
                 elif any(m["type"] in ("WeaveMerger", "LCAMerger") for m in mergers):
                     ins = _inserted_lines(c, u["basis_text"])
@@ -1129,49 +1149,145 @@ def fam_switch(s):
         s.run("switch", cmd_switch, argv, tp, cwd=cwd, merge_like=True, optclass="+".join(opt))
         return
     # --store: stash on request; judged by the round trip
-    wt = s.wt(tp)
-    U, _ = user_contents(wt, s.pool)
-    del wt
+    _store_and_back(s, tp, argv, cwd, ap, "+".join(opt))
+
+
+def _run_plain(s, cls, argv, cwd, tag):
+    """Run a follow-up command that is not itself judged by Scn.run; returns outcome string."""
+    from breezy import errors
+    from breezy import option as _option
+    from breezy import ui as _ui
+
+    s.log.append({"cmd": tag, "argv": list(argv)})
+    old = os.getcwd()
+    os.chdir(cwd)
+    try:
+        try:
+            _option._verbosity_level = 0
+            cmd = cls()
+            cmd._setup_outf = lambda: setattr(cmd, "outf", _ui.NullOutputStream("utf-8"))
+            cmd.run_argv_aliases(list(argv))
+            out = "ok"
+        except errors.BzrError as e:
+            out = "refused:" + type(e).__name__
+        except (KeyboardInterrupt, SystemExit):
+            raise
+        except Exception as e:
+            out = "crash:" + type(e).__name__
+    finally:
+        os.chdir(old)
+    s.ctx.hist("outcome:%s:%s" % (tag, out))
+    return out
+
+
+def _holds_stash(branch_url, tree_path):
+    from breezy.branch import Branch
+
+    # observation of the stash file itself (get_unshelver needs a tree that matches the shelf)
+    try:
+        return bool(Branch.open(branch_url)._uncommitted_branch()._transport.has("stored-transform"))
+    except Exception:
+        return False
+
+
+def s_wt(path):
+    from breezy.workingtree import WorkingTree
+
+    return WorkingTree.open(path)
+
+
+def _store_and_back(s, tp, argv, cwd, home_branch_path, optclass):
+    """`switch --store` away (judged: only a successful command may stash, a refused one must keep everything),
+    then `switch --store` back to the branch that holds the stash: what was stashed must be in the tree again."""
+    from breezy.builtins import cmd_switch
+
     stashed = []
+    home = s.wt(tp).branch.base
+    held_before = _holds_stash(home, tp)
+    took = {}
 
     def asked(u):
+        # the stash is a request only if it was taken: the command went through, or it failed AFTER parking the changes in
+        # the branch (which held none before); a refusal or crash before that must leave the work in the tree
+        if s.last_outcome != "ok":
+            if "v" not in took:
+                took["v"] = (not held_before) and _holds_stash(home, tp)
+                if took["v"]:
+                    s.ctx.hist("switch-store:failed-after-stash:" + s.last_outcome)
+            return took["v"]
         stashed.append(u)
         return True
 
-    out = s.run("switch", cmd_switch, argv, tp, cwd=cwd, asked=asked, merge_like=True, optclass="+".join(opt))
-    if out != "ok" or not stashed:
-        return
-    # switch back with --store: everything that was stashed must be on disk again
+    out = s.run("switch", cmd_switch, argv, tp, cwd=cwd, asked=asked, merge_like=True, optclass=optclass,
+                keyfn=lambda u: "store:" + ("refused-but-stripped:" if s.last_outcome != "ok" else "") + u["cls"].split("+")[0])
+    if out != "ok":
+        return out
+    if not stashed:
+        return out
     s.ctx.count("switch_store_roundtrip")
-    argv2 = ["--store", "-d", tp, ap]
-    from breezy import errors
-
-    s.log.append({"cmd": "switch-back", "argv": argv2})
-    old = os.getcwd()
-    os.chdir(s.root)
-    try:
-        try:
-            from breezy import option as _option
-            from breezy import ui as _ui
-
-            _option._verbosity_level = 0
-            cmd = cmd_switch()
-            cmd._setup_outf = lambda: setattr(cmd, "outf", _ui.NullOutputStream("utf-8"))
-            cmd.run_argv_aliases(argv2)
-        except errors.BzrError as e:
-            s.ctx.hist("outcome:switch-back:refused:" + type(e).__name__)
-            return
-    finally:
-        os.chdir(old)
+    back = _run_plain(s, cmd_switch, ["--store", "-d", tp, home_branch_path], s.root, "switch-back")
+    if back != "ok":
+        return out
     after = observe.snap_disk(tp)
     contents = {v[1] for v in after.values() if v[0] == "file"}
     for u in stashed:
-        if u["content"] and u["content"] not in contents:
-            # not a verdict: the first switch may have turned the stashed change into an ordinary modification (e.g. an
-            # unversioned file re-versioned by shelving its "deletion"), which the second --store stashes in the OTHER branch
-            s.ctx.hist("u:switch-store:not-restored-by-roundtrip:" + u["cls"].split("+")[0])
-        else:
+        if not u["content"]:
+            continue
+        if u["content"] in contents:
             s.ctx.hist("u:switch-store:restored")
+            s.ctx.count("switch_store_restored")
+        elif u["fid"] is None:
+            # not a verdict: an unversioned file below an unversioned-but-kept entry is re-versioned by shelving that entry's
+            # "deletion", travels as an ordinary modification and is stashed by the second --store in the OTHER branch
+            s.ctx.hist("u:switch-store:not-restored-by-roundtrip:" + u["cls"])
+        else:
+            s.ctx.fail("switch-store:roundtrip-lost:" + u["cls"].split("+")[0],
+                       "content of %s file %r stashed by `switch --store` is in no file of the tree after `switch --store` back" % (u["cls"], u["path"]),
+                       {"path": u["path"], "argv": list(argv), "content": u["content"].decode("latin-1")[:300], "after_paths": sorted(after)[:40]})
+    return out
+
+
+def fam_switch_store_shared(s):
+    """Two checkouts (lightweight or heavy) of ONE branch.  The first stores its changes in the branch and leaves; the second one's
+    `switch --store` must then be refused (ChangesAlreadyStored) and keep all of its work; the first comes back and gets its own."""
+    from breezy.branch import Branch
+    from breezy.builtins import cmd_switch
+
+    rng = s.rng
+    names = sorted(s.trees)
+    if len(names) < 2:
+        s.ctx.discard("one-branch")
+    a, b = rng.sample(names, 2)
+    ap, bp = s.trees[a], s.trees[b]
+    co1 = os.path.join(s.root, "co1")
+    co2 = os.path.join(s.root, "co2")
+    # heavy checkouts park their changes in the master branch too (Branch._uncommitted_branch)
+    Branch.open(ap).create_checkout(co1, lightweight=rng.random() < 0.7)
+    Branch.open(ap).create_checkout(co2, lightweight=rng.random() < 0.7)
+    s.user_edits(co1, hostile=False)
+    home1 = s.wt(co1).branch.base
+    out1 = s.run("switch", cmd_switch, ["--store", "-d", co1, bp], co1, cwd=s.root, merge_like=True, optclass="store+shared-first",
+                 asked=lambda u: s.last_outcome == "ok" or _holds_stash(home1, co2), keyfn=lambda u: "store:" + u["cls"].split("+")[0])
+    holds = _holds_stash(home1, co2)
+    s.ctx.hist("shared-branch-holds-stash:%s" % holds)
+    s.user_edits(co2)
+    argv = ["--store"]
+    if rng.random() < 0.3:
+        argv.append("--force")
+    cwd = co2
+    if rng.random() < 0.5:
+        argv += ["-d", co2]
+        cwd = s.root
+    argv.append(bp)
+    if holds:
+        s.ctx.count("switch_store_second_checkout")
+    out2 = _store_and_back(s, co2, argv, cwd, ap, "store+shared-second" + ("+branch-holds-stash" if holds else ""))
+    if holds:
+        s.ctx.hist("second-store-outcome:" + out2)
+    if out1 == "ok" and holds and out2 != "ok" and rng.random() < 0.7:
+        # the first checkout comes back: its own stash is restored (conservation on co1 judged as a plain switch --store)
+        s.run("switch", cmd_switch, ["--store", "-d", co1, ap], co1, cwd=s.root, merge_like=True, optclass="store+shared-first-back",
+              asked=lambda u: s.last_outcome == "ok", keyfn=lambda u: "store:" + u["cls"].split("+")[0])
 
 
 def fam_uncommit(s):
@@ -1205,7 +1321,7 @@ def fam_uncommit(s):
 
 
 FAMILIES = [(fam_revert, 26), (fam_remove, 18), (fam_merge, 18), (fam_pull, 8), (fam_update, 9), (fam_switch, 9), (fam_uncommit, 8),
-            (fam_remove_twice, 3), (fam_revert_resurrect, 3)]
+            (fam_remove_twice, 3), (fam_revert_resurrect, 3), (fam_switch_store_shared, 3)]
 
 
 def case(ctx):
